@@ -175,6 +175,13 @@ func (g *gen) basic(family string, i int, seed uint64) *scenario {
 		c := sc.Hook.Children[r.Intn(len(sc.Hook.Children))]
 		c["metadata"].(J)["labels"].(J)["controller-uid"] = "uid-of-somebody-else"
 		sc.Features = append(sc.Features, "desired-foreign-uid-label")
+	} else if g.twins && ctl.GenSelector && len(sc.Hook.Children) > 0 && r.Chance(1, 2) {
+		// under selector generation the parent's own .spec.selector is ignored: children that do not
+		// match it (no labels of their own at all) are as much the parent's as any other
+		for _, c := range sc.Hook.Children {
+			delete(c["metadata"].(J), "labels")
+		}
+		sc.Features = append(sc.Features, "children-without-labels")
 	}
 	sc.Hook.Kind = "const"
 	if r.Chance(1, 6) {
@@ -257,7 +264,17 @@ func (g *gen) basic(family string, i int, seed uint64) *scenario {
 			sc.Features = append(sc.Features, "foreign-owned")
 		case 5:
 			ref.Op, ref.Data = "relabel", J{"app": "nomatch"}
-			sc.Features = append(sc.Features, "owned-nonmatching")
+			if ctl.GenSelector && r.Chance(2, 3) {
+				// under selector generation only the controller-uid label counts: the child stops matching the
+				// parent's own (ignored) .spec.selector and keeps the uid label
+				ref.Op = "relabel-merge"
+				if r.Bool() {
+					ref.Data = J{"app": nil}
+				}
+				sc.Features = append(sc.Features, "owned-off-the-ignored-selector")
+			} else {
+				sc.Features = append(sc.Features, "owned-nonmatching")
+			}
 		case 6:
 			ref.Op, ref.Data = "deleting", J{"finalizers": A{"example.com/hold"}}
 			sc.Features = append(sc.Features, "child-deleting")
@@ -903,6 +920,15 @@ func (g *gen) rollout(i int, seed uint64, fair bool) *scenario {
 	case 2:
 		kid.Checks = []condCheck{{Type: "Ready", Reason: &reason}}
 	}
+	anyStatus := ""
+	if len(kid.Checks) == 1 && kid.Checks[0].Status == nil && r.Bool() {
+		// a check that names no status accepts any: the children report Ready=False (run to completion, say)
+		anyStatus = []string{"False", "Unknown"}[r.Intn(2)]
+		if r.Bool() {
+			kid.Checks[0].Reason = nil // the type alone
+		}
+		sc.Features = append(sc.Features, "status-check-without-status")
+	}
 	ctl.Kids = []kidSpec{kid}
 	if r.Chance(1, 4) {
 		k2 := kidPool[1-indexOfKid(kid)]
@@ -978,6 +1004,9 @@ func (g *gen) rollout(i int, seed uint64, fair bool) *scenario {
 	sc.Warmup = true
 	// after the warm-up: everything healthy, then the spec changes
 	healthy := extOp{Op: "healthy-all", APIVersion: kid.APIVersion, Kind: kid.Kind, Data: J{"reason": "Healthy"}}
+	if anyStatus != "" {
+		healthy.Data["condStatus"] = anyStatus
+	}
 	if secondRolling {
 		healthy.Data["alsoAPIVersion"], healthy.Data["alsoKind"] = ctl.Kids[1].APIVersion, ctl.Kids[1].Kind
 	}
@@ -1353,6 +1382,21 @@ func generateScenarios(prop string, seed uint64, n int, adv bool) []*scenario {
 			sc.Warmup, sc.Setup = true, nil
 			sc.Rounds = []roundSpec{{}, {}}
 			sc.Features = []string{"same-resource-two-versions"}
+			out = append(out, sc)
+		case prop == "C03" && i%12 == 7:
+			// selector generation on a parent that has a .spec.selector of its own (a Job-like API): owned children
+			// carry the controller-uid label and have stopped matching the ignored selector
+			sc := g.basic("generated-selector", i, s)
+			for tries := 0; tries < 60 && !(sc.Ctl.GenSelector && len(sc.Hook.Children) > 0 && !sc.hasFeature("desired-foreign-uid-label") && !sc.hasFeature("children-without-labels")); tries++ {
+				sc = g.basic("generated-selector", i, s)
+			}
+			sc.Warmup, sc.Setup, sc.Hook.PlainOwnerRef = true, nil, false
+			for _, ref := range sc.childRefs() {
+				ref.Op, ref.Data = "relabel-merge", J{"app": []interface{}{nil, "nomatch"}[r.Intn(2)]}
+				sc.Setup = append(sc.Setup, ref)
+			}
+			sc.Rounds = []roundSpec{{}, {}}
+			sc.Features = []string{"generate-selector", "owned-off-the-ignored-selector"}
 			out = append(out, sc)
 		case prop == "C03" && i%12 == 5:
 			// one controller instance over the whole history; the parent is deleted and re-created under
